@@ -154,6 +154,23 @@ Proof. exact @handler_at_most_once. Qed.
 Print Assumptions C09_handler_at_most_once.
 
 (* ---------------------------------------------------------------------------------- *)
+(* A plugin without a Synchronize handler (events only).  stub.Synchronize then answers every message
+   itself, with the More flag it was sent and no updates.  For ANY transport, recalculation function, fuel
+   and state: the registration goes exactly as for a stub whose handler returns no updates - the same
+   messages, the same outcome (same_outcome: delivered / failed with the same reason / ...), no updates -
+   and the stub's state is untouched (no handler invocation, nothing collected).  In particular a state that
+   needs several messages is delivered to it whenever it is delivered to a plugin with a handler
+   (C09_delivers_sizes), and the plugin is activated (C09_failed_not_activated). *)
+Theorem C09_no_handler_same_outcome :
+  forall (A B U : Type) (xmit : list A -> list B -> bool -> xres) (rc : Z -> Z -> Z -> Z -> option (Z * Z))
+         (fuel : nat) (pods : list A) (ctrs : list B) (st1 st2 : stub_state A B),
+  same_outcome (synchronize xmit (stub_sync (U := U) None) rc fuel pods ctrs st1)
+               (synchronize xmit (stub_sync (U := U) (Some (fun _ _ => Some []))) rc fuel pods ctrs st2) /\
+  (forall st, final_state (synchronize xmit (stub_sync (U := U) None) rc fuel pods ctrs st1) = Some st -> st = st1).
+Proof. exact no_handler_same_outcome. Qed.
+Print Assumptions C09_no_handler_same_outcome.
+
+(* ---------------------------------------------------------------------------------- *)
 (* Several plugins on one runtime.  Plugins register one after the other on one Adaptation; the model
    of that (sync_all, Model/SyncSplit.v) synchronises each with its own call of synchronize, which starts
    from the whole state and has no other input: the outcome of the registration at any position is the
@@ -438,3 +455,14 @@ Proof.
   eexists. split; [vm_compute; reflexivity|]. split; [reflexivity|].
   intros [_ [_ [H _]]]. specialize (H eq_refl). discriminate.
 Qed.
+
+(* a stub without a handler and the state that needs three messages: delivered, no updates, no
+   invocation, activated *)
+Example C09_ex_no_handler :
+  exists s,
+    synchronize (xmit_size id id 49 2 1500) (stub_sync (U := Z) None) recalc (sync_fuel ex_pods ex_ctrs) ex_pods ex_ctrs stub_init
+      = Delivered s [] stub_init /\
+    map (fun c : chunk Z Z => (len (fst (fst c)), len (snd (fst c)), snd c)) s
+      = [(1, 14, true); (1, 14, true); (1, 12, false)] /\
+    accept_external (fun l => l) true [] tt true = [tt].
+Proof. eexists. vm_compute. repeat split. Qed.
